@@ -132,7 +132,9 @@ TOK_ROOTS = ["Keyword", "Text", "Whitespace", "Comment", "Punctuation", "Operato
 
 def toktype_value(B, st, name):
     v = VExt("TokTypeConst", 9000 + TOK_ROOTS.index(name))
-    st.ext[v.ident] = {"$name": name}
+    c = z3.Function("tok_const", z3.IntSort(), z3.IntSort())
+    st.ext[v.ident] = {"$name": name, "$term": c(z3.IntVal(v.ident))}
+    ensure_tok_axioms(B)
     return v
 
 
@@ -147,9 +149,8 @@ def tok_in(B, st, x, root_name):
 def tok_term(B, st, x):
     if isinstance(x, E.VOpaque):
         return x.t
-    if isinstance(x, VExt) and x.kind == "TokTypeConst":
-        c = z3.Function("tok_const", z3.IntSort(), z3.IntSort())
-        return c(z3.IntVal(x.ident))
+    if isinstance(x, VExt):
+        return B.eng.ext_term(st, x)
     raise E.Unsupported(f"token type value {x!r}")
 
 
@@ -383,6 +384,25 @@ def install_io(B):
     B.ext_fns["builtins.open"] = _h_open
     B.ext_fns["os.walk"] = _h_walk
     B.ext_meths[("File", "read")] = _h_file_read
+    B.ext_meths[("Lexer", "get_tokens_unprocessed")] = _h_get_tokens_unprocessed
     B.ext_meths[("File", "__enter__")] = lambda B, st, base, args, kwargs, node: base
     B.ext_table["os.walk"] = ("fn", "os.walk")
     B.ext_table["pygments.lexers.get_lexer_for_filename"] = ("fn", "get_lexer_for_filename")
+
+
+def _h_get_tokens_unprocessed(B, st, base, args, kwargs, node):
+    """Lexer contract LC (the part the proof uses): a finite sequence of (offset, type, text) with
+    non-negative, non-decreasing offsets. Validated on the real lexers by the bounded check of C16."""
+    eng = B.eng
+    v = uninterp(B, st, "Lexer.get_tokens_unprocessed", [base] + list(args), "list[tuple[int,ext:TokType,str]]", node)
+    n = eng.list_len(st, v)
+    a, b = z3.Ints("lca! lcb!")
+    t = parse_type("tuple[int,ext:TokType,str]")
+    off = eng.tuple_proj(t, 0)
+    arr = eng.list_arr(st, v)
+    st.assume(FA([a], z3.Implies(z3.And(a >= 0, a < n), off(z3.Select(arr, a)) >= 0), patterns=[z3.Select(arr, a)]))
+    st.assume(FA([a, b], z3.Implies(z3.And(a >= 0, a < b, b < n), off(z3.Select(arr, a)) <= off(z3.Select(arr, b))),
+                 patterns=[z3.MultiPattern(z3.Select(arr, a), z3.Select(arr, b))]))
+    eng.used_assumptions.add("lexer contract LC: get_tokens_unprocessed yields a finite sequence of (offset, type, text) with "
+                             "non-negative, non-decreasing offsets")
+    return v
